@@ -47,6 +47,7 @@ fn main() {
     let mut conn_n: u64 = 0;
     let mut exact: u64 = 0;
     let mut total: u64 = 0;
+    let mut noops: u64 = 0;
     let mut fetch_same: u64 = 0;
     let mut fetch_diff_shown = 0;
     run_cases(|input| {
@@ -59,7 +60,10 @@ fn main() {
             let act = s["act"].as_str().unwrap_or("");
             act.starts_with("BadNsec3Label") || act == "Inject" || (act == "ZeroTtl" && s["t"] != "ANS")
         })).unwrap_or(false);
-        if let (Some(t), false) = (trace.as_mut(), dev_scn) {
+        if o.noop {
+            noops += 1;
+        }
+        if let (Some(t), false) = (trace.as_mut(), dev_scn || o.noop || input["runs"].as_array().map(|r| r.len() > 1).unwrap_or(false)) {
             t.event(json!({"ev": "start", "shape": input["shape"], "denial": input["denial"],
                            "qk": input["qk"], "adv": input["adv"]}));
             for (qt, z) in &o.fetches {
@@ -97,7 +101,7 @@ fn main() {
         }
         obs
     });
-    println!("EXACT {}", json!({"n": total, "machine_verdict_matched": exact, "machine_fetch_sequence_matched": fetch_same}));
+    println!("EXACT {}", json!({"n": total, "machine_verdict_matched": exact, "machine_fetch_sequence_matched": fetch_same, "noop_rewrites": noops}));
     if with_conn {
         println!("CONN {}", json!({"n": conn_n, "mismatch": conn_bad}));
     }
